@@ -139,13 +139,35 @@ def rule_T2(ctx: Ctx) -> None:
               "an untargeted maze keeps ADJLIST_START..ADJLIST_END; an unsolved one keeps up to TARGET_END (ORIGIN_END if there is no target region); a solved one everything",
               "a maze kind keeps regions it does not have (empty ORIGIN/TARGET/PATH delimiters) or loses one it has")
     tb = ctx.index.func(f"{TU}.tokens_between")
-    s_def = X.assignments_to(tb.node, "start_idx")
-    e_def = X.assignments_to(tb.node, "end_idx")
-    ok = len(s_def) == 1 and X.same_expr(s_def[0], "tokens.index(start_value) + int(not include_start)") and len(e_def) == 1 \
-        and X.same_expr(e_def[0], "tokens.index(end_value) + int(include_end)")
-    r = X.returns_of(tb.node)
-    ok = ok and len(r) == 1 and X.same_expr(r[0].value, "tokens[start_idx:end_idx]")
-    ctx.judge(tb, ok, {"start_idx": X.U(s_def[0]) if s_def else None, "end_idx": X.U(e_def[0]) if e_def else None},
+    # abstract evaluation over a symbolic token list: every flag combination, and the documented error cases
+    from sa.fold import EvalRaised, Evaluator, Unknown
+
+    toks = ["a", "<S>", "x", "y", "<E>", "b"]
+    pt = tb.params()
+    bad, unk = [], []
+    cases = []
+    for inc_s in (False, True):
+        for inc_e in (False, True):
+            for uniq in (False, True):
+                cases.append((list(toks), "<S>", "<E>", inc_s, inc_e, uniq, toks[1 + (0 if inc_s else 1): 4 + (1 if inc_e else 0)]))
+    cases.append((["<S>", "<E>"], "<S>", "<E>", False, False, False, "raises AssertionError|[]"))
+    cases.append((["a", "<E>", "x", "<S>"], "<S>", "<E>", False, False, False, "raises"))
+    cases.append((["a", "<S>", "x"], "<S>", "<E>", False, False, False, "raises"))
+    cases.append((["<S>", "x", "<E>", "<S>"], "<S>", "<E>", False, False, True, "raises"))
+    cases.append((["<S>", "x", "<E>", "<S>", "y", "<E>"], "<S>", "<E>", False, False, False, ["x"]))
+    for tk, sv, evl, inc_s, inc_e, uniq, want in cases:
+        env = dict(zip(pt, [tk, sv, evl, inc_s, inc_e, uniq]))
+        try:
+            got = Evaluator().run_body(X.body_wo_doc(tb.node), env)
+        except EvalRaised as e:
+            got = f"raises {e.exc_name}"
+        except Unknown as e:
+            unk.append(str(e)[:140])
+            continue
+        good = (got == want) if isinstance(want, list) else (isinstance(got, str) and got.startswith("raises")) or (want.endswith("|[]") and got == [])
+        if not good:
+            bad.append({"tokens": tk, "include_start": inc_s, "include_end": inc_e, "found": got, "expected": want})
+    ctx.judge(tb, False if bad else None if unk else True, {"cases": len(cases), "parameters": pt, "deviations": bad[:3], "undecided": unk[:2]},
               "tokens_between returns the tokens strictly between the delimiters, each delimiter included iff its flag says so")
 
 
